@@ -1,5 +1,5 @@
 use super::rewrite::Rewrite;
-use super::{string_case, Ctx, TransformError};
+use super::{string_case, Applying, Ctx, TransformError};
 use ast_grep_core::meta_var::MetaVariable;
 use ast_grep_core::source::Content;
 use ast_grep_core::{Doc, Language};
@@ -175,13 +175,13 @@ impl Transformation<String> {
   }
 }
 impl Transformation<MetaVariable> {
-  pub(super) fn insert<D: Doc>(&self, key: &str, ctx: &mut Ctx<D>) {
+  pub(super) fn insert<D: Doc>(&self, key: &str, ctx: &mut Ctx<D>, applying: Option<&Applying>) {
     let src = self.source();
     // TODO: add this debug assertion back
     // debug_assert!(ctx.env.get_transformed(key).is_none());
     // avoid cyclic
     ctx.env.insert_transformation(src, key, vec![]);
-    let opt = self.compute(ctx);
+    let opt = self.compute_in(ctx, applying);
     let bytes = if let Some(s) = opt {
       <D::Source as Content>::decode_str(&s).to_vec()
     } else {
@@ -190,12 +190,15 @@ impl Transformation<MetaVariable> {
     ctx.env.insert_transformation(src, key, bytes);
   }
   fn compute<D: Doc>(&self, ctx: &mut Ctx<D>) -> Option<String> {
+    self.compute_in(ctx, None)
+  }
+  fn compute_in<D: Doc>(&self, ctx: &mut Ctx<D>, applying: Option<&Applying>) -> Option<String> {
     use Transformation as T;
     match self {
       T::Replace(r) => r.compute(ctx),
       T::Substring(s) => s.compute(ctx),
       T::Convert(c) => c.compute(ctx),
-      T::Rewrite(r) => r.compute(ctx),
+      T::Rewrite(r) => r.compute_in(ctx, applying),
     }
   }
 
